@@ -289,3 +289,15 @@ def regression_cases(prop):
                 with open(os.path.join(d, fn)) as f:
                     out.append((fn, json.load(f)))
     return out
+
+
+def make_class(name, base_classes, body=None):
+    """type(name, bases, body); base lists that CPython rejects are truncated
+    deterministically to the first base (construction, not rejection).
+    Returns (class, number of bases kept)."""
+    base_classes = tuple(base_classes)
+    try:
+        return type(name, base_classes or (object,), dict(body or {})), \
+            len(base_classes)
+    except TypeError:
+        return type(name, base_classes[:1], dict(body or {})), 1
